@@ -1,6 +1,10 @@
 #!/usr/bin/env python3
-"""C09 — kernel-matrix caches: proofs (Properties_C09.v) + correspondence (extracted model vs
-shark::CachedMatrix/LRUCache on random operation histories) + spec monitor on the C++ output."""
+"""C09 — kernel-matrix caches: proofs (Properties_C09.v) + correspondence + spec monitors on the C++ output.
+streams: cache    C09Model.step vs shark::CachedMatrix/LRUCache over a synthetic base (random operation histories)
+         derived  C09Derived vs KernelMatrix/Regularized/Modified/ExampleModified/Precomputed/BlockMatrix2x2 under flips
+         more     C09More (Gaussian / Difference / PartlyPrecomputed, directly + through the composed cache / precomputed models)
+         comp     C09Comp over the operation records of C09More: CachedMatrix<Base> / PrecomputedMatrix<Base> for every Base, histories
+                  of row requests (prefixes, sub-ranges), flips, setMaxCachedIndex, clear; capacities N, 2N, N^2, ...; unequal batches"""
 import math, os, sys, re
 sys.path.insert(0, os.path.dirname(os.path.abspath(__file__)))
 from vlib import *
@@ -221,14 +225,19 @@ def gen_more(rng):
         return line, {"kind": "X", "n": npairs, "pts": pts, "pairs": pairs, "flips": flips}
     pts = [[rng.randint(-9, 9) for _ in range(dim)] for _ in range(n)]
     rows = rng.randint(1, n + 1)
-    line = "Y %d %d %d | %s" % (n, dim, rows, " ".join(str(v) for p in pts for v in p))
-    return line, {"kind": "Y", "n": n, "pts": pts, "rows": rows}
+    # cache size in bytes: a multiple of the row size, a few bytes less / more, less than one row (runtime check)
+    extra = rng.choice([0, 0, -1, 1, rng.randint(-(8 * n - 1), 8 * n - 1), -8 * n * rows + rng.randint(0, 8 * n - 1)])
+    if rows * n * 8 + extra < 0: extra = 0
+    line = "Y %d %d %d %d | %s" % (n, dim, rows, extra, " ".join(str(v) for p in pts for v in p))
+    return line, {"kind": "Y", "n": n, "pts": pts, "rows": min(n, (rows * n * 8 + extra) // (n * 8)), "bytes": rows * n * 8 + extra}
 
 
 def monitor_more(out, info):
     """spec predicate on the implementation's output: every entry read through every access path equals the direct kernel value
     of the points that the flips put at (i, j)."""
     import struct
+    if info["kind"] == "Y" and info["rows"] == 0:
+        return [] if out.startswith("EXC") else ["Y: a cache of %d bytes holds no row of %d doubles, but the constructor did not raise: %s" % (info["bytes"], info["n"], out[:80])]
     if out.startswith("EXC") or out.startswith("STDEXC") or not out.strip():
         return ["%s: implementation raised / printed nothing: %s" % (info["kind"], out[:120])]
     f = dict(x.split("=", 1) for x in out.split()[1:])
@@ -254,7 +263,7 @@ def monitor_more(out, info):
         pts = info["pts"]; exp_ij = lambda i, j: float(dot(pts[i], pts[j])); rel = 0.0; names = ["E", "R"]
         k = f.get("K", "").split(",")
         if k != ["1", "1" if info["rows"] >= n else "0"]:
-            msgs.append("Y: isCached(0), isCached(n-1) = %s with %d cached rows of %d" % (k, info["rows"], n))
+            msgs.append("Y: isCached(0), isCached(n-1) = %s with %d cached rows of %d (cache of %d bytes: at most %d rows fit)" % (k, info["rows"], n, info["bytes"], info["bytes"] // (8 * n)))
     for nm in names:
         if nm not in f: msgs.append("%s: field %s missing" % (info["kind"], nm)); continue
         vals = [float.fromhex(x) for x in f[nm].split(",")] if f[nm] else []
@@ -271,7 +280,26 @@ def monitor_more(out, info):
     return msgs
 
 
+def same_fields(mo, io, info):
+    """extracted model vs implementation, field by field: exact for X and Y (integer data), tolerance only for the exp of G"""
+    if mo.split()[:1] != io.split()[:1]: return "line kinds differ: model `%s`, implementation `%s`" % (mo[:40], io[:40])
+    if mo.startswith("EXC"): return None
+    fm = dict(x.split("=", 1) for x in mo.split()[1:]); fi = dict(x.split("=", 1) for x in io.split()[1:])
+    if sorted(fm) != sorted(fi): return "fields differ: model %s, implementation %s" % (sorted(fm), sorted(fi))
+    rel = 0.0 if info["kind"] != "G" else (1.2e-7 if info["ctype"] == "f" else 1e-12)
+    for k in sorted(fm):
+        if fm[k] == fi[k]: continue
+        a, b = fm[k].split(","), fi[k].split(",")
+        if len(a) != len(b): return "field %s: %d values in the model, %d in the implementation" % (k, len(a), len(b))
+        for q, (x, y) in enumerate(zip(a, b)):
+            if x == y: continue
+            try: u, v = float.fromhex(x), float.fromhex(y)
+            except ValueError: return "field %s value %d: model %s, implementation %s" % (k, q, x, y)
+            if abs(u - v) > rel * max(abs(u), abs(v)): return "field %s value %d: model %r, implementation %r" % (k, q, u, v)
+    return None
+
 def more_stream(ck, n):
+    model = extract_model("C09M", "C09CExtract.v", "c09m_driver.ml")
     exe, err = cxx_build("c09_more", [os.path.join(ROOT, "harness", "c09_more.cpp")])
     if exe is None:
         ck.oblige("harness for Gaussian / difference / partly precomputed matrices builds against /repo", False, err); return 0
@@ -279,12 +307,14 @@ def more_stream(ck, n):
     cases = [gen_more(ck.rng) for _ in range(n)]
     cdir = os.path.join(ROOT, "corpus", PID)
     rc, outl, err = run_lines(exe, [c for c, _ in cases], os.path.join(tmpd, "cases.txt"))
-    nbad = 0; kinds = {}
+    rcm, moutl, errm = run_lines(model, [c for c, _ in cases], os.path.join(tmpd, "cases_model.txt"))
+    if rcm != 0 or len(moutl) != len(cases): raise RuntimeError("model driver c09m failed: " + errm[-1000:])
+    nbad = 0; kinds = {}; ndis = 0; first_dis = None
     if rc != 0 or len(outl) < len(cases):
         k = min(len(outl), len(cases) - 1)
         cf = ck.write_replay("more_crash.txt", cases[k][0] + "\n")
         ck.violation("more:crash", {"case_file": cf, "case": cases[k][0]}, "implementation crashed (rc=%s) on `%s`" % (rc, cases[k][0][:200])); nbad += 1
-    for (line, info), o in zip(cases, outl):
+    for qi, ((line, info), o) in enumerate(zip(cases, outl)):
         kinds[info["kind"]] = kinds.get(info["kind"], 0) + 1
         msgs = monitor_more(o, info)
         if msgs:
@@ -293,16 +323,203 @@ def more_stream(ck, n):
                 cf = ck.write_replay("more_%d.txt" % nbad, line + "\n")
                 ck.violation("more:" + msgs[0].split(":")[0], {"case_file": cf, "case": line, "implementation_output": o[:2000], "monitor": msgs},
                              "spec monitor fails on the implementation: " + msgs[0])
+        else:
+            d = same_fields(moutl[qi], o, info)
+            if d:
+                ndis += 1
+                if first_dis is None: first_dis = (line, moutl[qi], o, d)
+    if ndis and not nbad:
+        line, m_, o_, d = first_dis
+        ck.violation("correspondence-more", {"case": line, "model_output": m_[:2000], "implementation_output": o_[:2000], "difference": d},
+                     "correspondence C09More (Gaussian / Difference / PartlyPrecomputed models, read directly and through the composed cache / precomputed models) vs implementation no longer checks (%s); monitor passes on all explored inputs" % d, no_input=True)
+    ck.oblige("correspondence extracted GaussianKernelMatrix / DifferenceKernelMatrix / PartlyPrecomputedMatrix models = implementation on %d cases (exact for X, Y; exp at 1e-12 for G)" % n, ndis == 0 and nbad == 0)
     ck.oblige("monitor: GaussianKernelMatrix (float/double), DifferenceKernelMatrix, PartlyPrecomputedMatrix agree entry-wise with direct kernel evaluation through entry(), row(), CachedMatrix, PrecomputedMatrix under flips (%d cases)" % n, nbad == 0)
     ck.notes["more_cases"] = kinds
     return n
+
+# ---------------- composed histories: CachedMatrix<Base> / PrecomputedMatrix<Base> over every kernel-matrix class ----------------
+COMP_KINDS = {"K": "KernelMatrix", "R": "RegularizedKernelMatrix", "M": "ModifiedKernelMatrix", "E": "ExampleModifiedKernelMatrix",
+              "B": "BlockMatrix2x2<KernelMatrix>", "D": "DifferenceKernelMatrix", "G": "GaussianKernelMatrix"}
+
+def gen_comp(rng, big=False):
+    """returns (case lines, info).  Same file for the harness and the extracted model."""
+    kind = rng.choice("KRMEBDGRDG")
+    wrap = "c" if (kind == "E" or rng.random() < 0.7) else "p"      # PrecomputedMatrix<ExampleModifiedKernelMatrix> does not compile
+    n = rng.randint(1, 4 if kind == "B" else (8 if big else 6)); dim = rng.randint(1, 3)
+    if kind == "D": n = max(n, 2)
+    mb = rng.choice([1, 2, 3, 4, n, n + 3])                         # unequal batches whenever the batch count does not divide n
+    pts = [[rng.randint(-4, 4) for _ in range(dim)] for _ in range(n)]
+    diag = [rng.randint(0, 9) for _ in range(n)]; labs = [rng.randint(0, 2) for _ in range(n)]
+    pairs = [(rng.randrange(n), rng.randrange(n)) for _ in range(rng.randint(1, 7))] if kind == "D" else []
+    if pairs and rng.random() < 0.5: pairs[-1] = (n - 1, rng.randrange(n))
+    N = {"B": 2 * n, "D": len(pairs)}.get(kind, n)
+    cap = rng.choice([N, 2 * N, N * N, rng.randint(N, N * N + 3), rng.randint(1, N)])
+    g = rng.choice([1, 3, 5])
+    pre = []
+    if wrap == "c" or kind in "EBDG" or os.environ.get("C09_PREFLIP_KERNEL"):   # KernelMatrix::matrix() ignores flips: see Properties_C09.v
+        pre = [rng.randrange(N) for _ in range(2 * rng.randint(0, 3))]
+    ops = []
+    for _ in range(rng.randint(4, 60 if big else 36)):
+        r = rng.random()
+        if wrap == "c":
+            if r < 0.45:
+                e = rng.randint(1, N); ops.append("R %d %d %d" % (rng.randrange(N), rng.choice([0, 0, rng.randint(0, e)]), e))
+            elif r < 0.67: ops.append("F %d %d" % (rng.randrange(N), rng.randrange(N)))
+            elif r < 0.73: ops.append("M %d" % rng.randint(0, N))
+            elif r < 0.76: ops.append("X")
+            else:
+                e = rng.randint(0, N); ops.append("Q %d %d %d" % (rng.randrange(N), rng.choice([0, 0, rng.randint(0, e)]), e))
+        else:
+            if r < 0.4: ops.append("F %d %d" % (rng.randrange(N), rng.randrange(N)))
+            else:
+                e = rng.randint(0, N); ops.append("%s %d %d %d" % (rng.choice("QR"), rng.randrange(N), rng.randint(0, e), e))
+    hd = "C %s %s %d %d %d %d %d | %s | %s | %s | %s | %s" % (kind, wrap, n, dim, mb, cap, g, " ".join(str(v) for p in pts for v in p),
+        " ".join(map(str, diag)), " ".join(map(str, labs)), " ".join("%d %d" % p for p in pairs), " ".join(map(str, pre)))
+    return [hd] + ops
+
+def comp_info(hd):
+    t = hd.split(); kind, wrap = t[1], t[2]
+    sec = [[]]
+    for x in t[3:]:
+        if x == "|": sec.append([])
+        else: sec[-1].append(int(x))
+    while len(sec) < 6: sec.append([])
+    n, dim, mb, cap, g = sec[0]
+    pts = [sec[1][i * dim:(i + 1) * dim] for i in range(n)]; diag, labs = sec[2], sec[3]
+    pairs = list(zip(sec[4][0::2], sec[4][1::2])); pre = list(zip(sec[5][0::2], sec[5][1::2]))
+    dot = lambda u, v: sum(x * y for x, y in zip(u, v))
+    k = lambda a, b: dot(pts[a], pts[b])
+    if kind == "K": ent = k
+    elif kind == "R": ent = lambda a, b: k(a, b) + (diag[a] if a == b else 0)
+    elif kind == "M": ent = lambda a, b: (2 if labs[a] == labs[b] else -1) * k(a, b)
+    elif kind == "E": ent = lambda a, b: k(a, b) * (16 >> (labs[a] + labs[b]))
+    elif kind == "B": ent = lambda a, b: k(a % n, b % n)
+    elif kind == "D":
+        diff = [[x - y for x, y in zip(pts[g_], pts[s_])] for (s_, g_) in pairs]
+        ent = lambda a, b: dot(diff[a], diff[b])
+    else:
+        gamma = 2.0 ** (-g)
+        ent = lambda a, b: math.exp(-gamma * sum((x - y) ** 2 for x, y in zip(pts[a], pts[b])))
+    N = {"B": 2 * n, "D": len(pairs)}.get(kind, n)
+    return dict(kind=kind, wrap=wrap, N=N, cap=cap, ent=ent, pre=pre, isf=(kind == "G"))
+
+def monitor_comp(lines, outl):
+    """Spec of the property on the implementation's own output: every returned / cached / precomputed cell equals the direct
+    evaluation of the ORIGINAL entry function under the composed variable order; accounting and capacity clauses."""
+    info = comp_info(lines[0]); N = info["N"]; ent = info["ent"]; cap = info["cap"]; isf = info["isf"]
+    what = "%s<%s>" % ("CachedMatrix" if info["wrap"] == "c" else "PrecomputedMatrix", COMP_KINDS[info["kind"]])
+    perm = list(range(N))
+    for i, j in info["pre"]: perm[i], perm[j] = perm[j], perm[i]
+    val = (lambda x: float.fromhex(x)) if isf else int
+    def same(v, a, b):
+        w = ent(perm[a], perm[b])
+        return (abs(v - w) <= 1e-12 * abs(w)) if isf else v == w
+    prev = None; prev_lens = None
+    for idx, (l, o) in enumerate(zip(lines, outl)):
+        t = l.split(); d = parse_state(o.split())
+        if t[0] == "F":
+            i, j = int(t[1]), int(t[2]); perm[i], perm[j] = perm[j], perm[i]
+        if "!OOB" in o: return ["line %d `%s`: %s::row wrote outside the caller's buffer" % (idx, l, what)]
+        if " EXC" in o or "acc" not in d: return ["line %d `%s`: %s raised / printed no state" % (idx, l, what)]
+        if "E" in d:
+            vals = [val(x) for x in d["E"].split(",")] if d["E"] else []
+            if len(vals) != N * N or not all(same(vals[a * N + b], a, b) for a in range(N) for b in range(N)):
+                return ["line %d `%s`: %s::entry differs from the original entries under the composed order" % (idx, l, what)]
+        if "ret" in d and t[0] in "RQ":
+            k, a, e = int(t[1]), int(t[2]), int(t[3])
+            lo = 0 if (t[0] == "R" and info["wrap"] == "c") else a      # the non-const CachedMatrix::row returns the line from column 0
+            got = [val(x) for x in d["ret"].split(",")] if d["ret"] else []
+            if len(got) != e - lo or not all(same(got[c - lo], k, c) for c in range(lo, e)):
+                return ["line %d `%s`: %s::row returned %s, original entries under the composed order are %s" % (idx, l, what, got, [ent(perm[k], perm[c]) for c in range(lo, e)])]
+        if info["wrap"] == "p":
+            if d["acc"] != "%d/%d/%d" % (N * N, N, N): return ["line %d `%s`: %s accounting %s, expected %d/%d/%d" % (idx, l, what, d["acc"], N * N, N, N)]
+            continue
+        lens = list(map(int, d["len"].split(","))) if d.get("len") else []
+        lru = list(map(int, d["lru"].split(","))) if d.get("lru") else []
+        if int(d["sz"]) != sum(lens): return ["line %d `%s`: %s size accounting %s != sum of line lengths %d" % (idx, l, what, d["sz"], sum(lens))]
+        if int(d["sz"]) > cap: return ["line %d `%s`: %s holds %s values > capacity %d" % (idx, l, what, d["sz"], cap)]
+        if d["acc"] != "%s/%d" % (d["sz"], cap): return ["line %d `%s`: %s getCacheSize/getMaxCacheSize = %s, expected %s/%d" % (idx, l, what, d["acc"], d["sz"], cap)]
+        if d.get("rs", "") != ",".join("%d%s" % (x, "+" if x else "-") for x in lens): return ["line %d `%s`: %s getCacheRowSize/isCached %s disagree with the line lengths %s" % (idx, l, what, d.get("rs"), lens)]
+        if sorted(lru) != [k for k in range(N) if lens[k] > 0] or int(d["lines"]) != len(lru):
+            return ["line %d `%s`: %s LRU list %s does not list exactly the cached lines" % (idx, l, what, lru)]
+        if t[0] == "X" and (int(d["sz"]) != 0 or lru): return ["line %d: %s not empty after clear()" % (idx, what)]
+        if t[0] in "FM" and prev_lens is not None and (sorted(lens) != sorted(prev_lens)): return ["line %d `%s`: %s line lengths changed by a flip / index restriction" % (idx, l, what)]
+        for item in filter(None, d.get("data", "").split(";")):
+            k, vals = item.split(":"); k = int(k)
+            for c, v in enumerate(vals.split(",")):
+                if not same(val(v), k, c):
+                    return ["line %d `%s`: %s cached line %d col %d holds %s, original entry under the composed order is %s" % (idx, l, what, k, c, v, ent(perm[k], perm[c]))]
+        if t[0] == "R" and prev is not None and prev[0] == "R" and prev[1] != t[1] and prev_lens is not None:
+            pk = int(prev[1])
+            if prev_lens[pk] + int(t[3]) <= cap and lens[pk] != prev_lens[pk]:
+                return ["line %d `%s`: %s row %d requested just before was evicted although %d+%s <= capacity %d" % (idx, l, what, pk, prev_lens[pk], t[3], cap)]
+        prev = t if t[0] != "C" else None; prev_lens = lens
+    return []
+
+def same_lines(a, b, isf):
+    if a == b: return True
+    if not isf or len(a) != len(b): return False
+    for x, y in zip(a, b):
+        if x == y: continue
+        tx, ty = re.split(r"[ ,;:=/]", x), re.split(r"[ ,;:=/]", y)
+        if len(tx) != len(ty): return False
+        for u, v in zip(tx, ty):
+            if u == v: continue
+            try: fu, fv = float.fromhex(u), float.fromhex(v)
+            except ValueError: return False
+            if abs(fu - fv) > 1e-12 * max(abs(fu), abs(fv)): return False
+    return True
+
+def comp_stream(ck, n, big=False):
+    model = extract_model("C09C", "C09CExtract.v", "c09c_driver.ml")
+    exe, err = cxx_build("c09_comp", [os.path.join(ROOT, "harness", "c09_comp.cpp")])
+    if exe is None:
+        ck.oblige("composed-history harness builds against /repo", False, err); return 0
+    tmpd = os.path.join(BUILD, "tmp", PID, "comp"); os.makedirs(tmpd, exist_ok=True)
+    strip = lambda ls: [re.sub(r"^\d+ ", "", l) for l in ls]
+    if ck.replay: raw = [[l for l in open(ck.replay).read().split("\n") if l.strip() and not l.startswith("#")]]
+    else: raw = [gen_comp(ck.rng, big) for _ in range(n)]
+    # drop the operations outside the documented preconditions (the model's gwf_op decides; REJECT lines do not change the state)
+    mo = run_cases(model, raw, os.path.join(tmpd, "raw_model.txt"))
+    cases = []
+    for c, (o, rc, e) in zip(raw, mo):
+        if rc != 0 or len(o) != len(c): raise RuntimeError("composed model driver failed: %s" % e)
+        cases.append([l for l, ol in zip(c, o) if not ol.endswith("REJECT")])
+    io = run_cases(exe, cases, os.path.join(tmpd, "impl.txt"))
+    mo = run_cases(model, cases, os.path.join(tmpd, "model.txt"))
+    nmon = ndis = 0; kinds = {}; first_dis = None
+    for ci, c in enumerate(cases):
+        (b, rcb, eb), (a, rca, ea) = io[ci], mo[ci]
+        key = c[0].split()[1] + c[0].split()[2]; kinds[key] = kinds.get(key, 0) + 1
+        msgs = ["implementation crashed rc=%s on %s" % (rcb, c[0][:60])] if rcb != 0 else monitor_comp(c, strip(b))
+        if msgs:
+            nmon += 1
+            if nmon <= 2:
+                cf = ck.write_replay("comp_%d.txt" % ci, "\n".join(c) + "\n")
+                ck.violation("comp:" + re.sub(r"line \d+ (`[^`]*`)?: ", "", msgs[0])[:160], {"case_file": cf, "case": c, "implementation_output": b, "model_output": a, "monitor": msgs},
+                             "spec monitor fails on the implementation: " + msgs[0])
+        elif not same_lines(strip(a), strip(b), c[0].split()[1] == "G"):
+            ndis += 1
+            if first_dis is None: first_dis = ci
+    if ndis and not nmon:
+        ci = first_dis
+        ck.violation("correspondence-composed", {"case": cases[ci], "model_output": mo[ci][0], "implementation_output": io[ci][0]},
+                     "correspondence C09Comp/C09More vs CachedMatrix/PrecomputedMatrix over the kernel-matrix classes no longer checks; monitor passes on all explored inputs", no_input=True)
+    ck.oblige("correspondence composed model=implementation and monitor on %d histories of CachedMatrix<Base>/PrecomputedMatrix<Base>, Base in %s" % (len(cases), sorted(kinds)), nmon == 0 and ndis == 0)
+    ck.notes["composed_cases"] = kinds
+    return sum(len(c) for c in cases)
 
 def main():
     ck = Check(PID)
     ck.trusted = DEFAULT_TRUSTED + ["modelled not verified: real new[]/delete[] behaviour, boost::intrusive::list (its observable order is compared through listIndex)"]
     ck.assumptions = ["operations respect the documented preconditions of CachedMatrix/LRUCache (0 < end <= min(size, capacity), indices < size)",
-                      "base matrix is a pure function of the two variable ids (free matrix of id pairs in the model; 1000*id_i+id_j in the harness)"]
+                      "cache stream: base matrix is a pure function of the two variable ids (free matrix of id pairs in the model; 1000*id_i+id_j in the harness); composed stream: the base is each kernel-matrix class itself (operation records of C09More.v, proved flip-aware in C09InstProofs.v / C09MoreProofs.v)",
+                      "kernel of the derived / composed / more streams: LinearKernel on small integer points (exact); GaussianKernelMatrix: exp is abstract in the model, libm's exp on both sides of the comparison (1e-12)",
+                      "PrecomputedMatrix over KernelMatrix / Regularized / Modified: constructed from an unflipped base (KernelMatrix::matrix ignores earlier flips; C09_PREFLIP_KERNEL=1 generates such cases)"]
     ck.proofs()
+    if ck.replay and open(ck.replay).read().lstrip().startswith("C ") and open(ck.replay).read().split()[1] in COMP_KINDS:
+        # replay of a composed history (build/replay/C09/comp_*.txt)
+        ck.cov["evaluations"] = comp_stream(ck, 1); ck.finish()
     model = extract_model(PID, "C09Extract.v", "c09_driver.ml")
     exe, err = cxx_build("c09_cache", [os.path.join(ROOT, "harness", "c09_cache.cpp")])
     if exe is None:
@@ -349,7 +566,8 @@ def main():
             if "lines" in d:
                 if prev is not None and l[0] in "RT" and int(d["lines"]) < prev + (1 if l[0] == "R" else 0): evict += 1
                 prev = int(d["lines"])
-    ck.cov["evaluations"] = len(flat) + (derived_stream(ck, 300 if not big else 3000) if not ck.replay else 0) + (more_stream(ck, 300 if not big else 3000) if not ck.replay else 0)
+    ck.cov["evaluations"] = len(flat) + (derived_stream(ck, 300 if not big else 3000) if not ck.replay else 0) + (more_stream(ck, 300 if not big else 3000) if not ck.replay else 0) \
+        + (comp_stream(ck, 300 if not big else 3000, big) if not ck.replay else 0)
     ck.cov["distinct_nontrivial"] = len(set(" ".join(c) for c in cases if len(c) > 3))
     ck.cov["rule"] = "random histories of CachedMatrix/LRUCache operations (row, const row, flip, setMaxCachedIndex, clear, truncate, mark) on n<=8 (16 in thorough) variables, capacities 1..n^2+3, filtered by the model's precondition check wf_op; non-trivial = at least 3 operations; distinct = distinct operation strings"
     ck.cov["samples"] = cases[:2]
